@@ -127,9 +127,8 @@ SPECS = {
     "YAEP_NEGATIVE_TERM_CODE": [["-1*L[&out0(read_terminal)] + -1 >= 0"]],
     "YAEP_REPEATED_TERM_DECL": [["symb_find_by_repr(read_terminal()) != 0"]],
     "YAEP_REPEATED_TERM_CODE": [["symb_find_by_code(L[&out0(read_terminal)]) != 0"],
-                                # the element looked at is spelled arr[i] or through the running pointer `term'
-                                ["re:^-1 != L\\[(?:\\(L\\[@sterms\\.vlo_t\\.vlo_start\\]\\)\\[i\\]|\\(term\\))\\.sterm\\.code\\]$", "-1 != L[(prev).sterm.code]",
-                                 "re:^(?:L\\[\\(L\\[@sterms\\.vlo_t\\.vlo_start\\]\\)\\[i\\]\\.sterm\\.code\\] != L\\[\\(prev\\)\\.sterm\\.code\\]|L\\[\\(prev\\)\\.sterm\\.code\\] != L\\[\\(term\\)\\.sterm\\.code\\])$"]],
+                                # two declarations of one name that both carry a code, and the codes differ (whatever the two are called: arr[i], a running pointer, `prev' ...)
+                                ["n2re:^-1 != L\\[.*\\.sterm\\.code\\]$", "re:^L\\[.*\\.sterm\\.code\\] != L\\[.*\\.sterm\\.code\\]$"]],
     "YAEP_FIXED_NAME_USAGE": [['symb_find_by_repr("error") != 0'],
                               ["L[(L[@grammar]).grammar.axiom] != 0"],
                               ["L[(L[@grammar]).grammar.end_marker] != 0"],
@@ -164,6 +163,8 @@ def _has(conds, c):
     import re
     if c.startswith("re:"):
         return any(re.search(c[3:], x) for x in conds)
+    if c.startswith("n2re:"):
+        return len(set(x for x in conds if re.search(c[5:], x))) >= 2
     return c in conds
 
 
@@ -214,14 +215,14 @@ def rule_code_table(ctx, rep, config="c-lib"):
         near = None
         cat = set(a for c in conds for a in _atoms(c))
         for spec in SPECS[cname]:
-            sat = set(a for c in spec if not c.startswith("re:") for a in _atoms(c))
-            if sat and sat <= cat and (near is None or all(_has(conds, c) for c in spec if not c.startswith("re:"))):
+            sat = set(a for c in spec if not c.startswith(("re:", "n2re:")) for a in _atoms(c))
+            if sat and sat <= cat and (near is None or all(_has(conds, c) for c in spec if not c.startswith(("re:", "n2re:")))):
                 near = spec
         if near is not None:
             missing = [c for c in near if not _has(conds, c)]
             shown = [SPEC_TEXT.get(c, c) for c in missing]
             rep.violation("C10-codes", key, "%s is raised under another predicate than documented: expected %s, the site is controlled by %s" % (
-                cname, shown, [c for c in conds if (set(_atoms(c)) & set(a for x in missing for a in _atoms(x))) or any(x.startswith("re:") for x in missing)]),
+                cname, shown, [c for c in conds if (set(_atoms(c)) & set(a for x in missing for a in _atoms(x))) or any(x.startswith(("re:", "n2re:")) for x in missing)]),
                 where=i.where(), witness=[i.where()] + conds)
         else:
             rep.broke("C10-codes", "site %s of %s is controlled by conditions of a structure the table does not know: %s" % (i.where(), cname, conds))
